@@ -204,8 +204,13 @@ pub fn run_batch(
         scope.spawn(|| {
             let mut last: Vec<(u64, Instant)> =
                 (0..workers).map(|_| (u64::MAX, Instant::now())).collect();
+            let mut tick = 0u64;
             while !finished.load(Ordering::Relaxed) {
-                std::thread::sleep(std::time::Duration::from_millis(500));
+                std::thread::sleep(std::time::Duration::from_millis(20));
+                tick += 1;
+                if tick % 25 != 0 {
+                    continue;
+                }
                 for w in 0..workers {
                     let cur = current[w].load(Ordering::Relaxed);
                     if cur != last[w].0 {
